@@ -40,13 +40,13 @@ func directed() []rpcsim.Directed {
 		{Sc: one("fclose-during-send", 2, fclose), Script: []string{"start 1 1 7", "fclose 2", "sret 1 ok", "run 1"}},
 		{Sc: one("fclose-then-start", 2, fclose), Script: []string{"fclose 2", "start 1 1 7"}},
 		{Sc: one("close-then-start", 2, closeG), Script: []string{"close 1", "start 1 1 7"}},
-		{Sc: one("graceful-close-waits", 2, closeG, res0), Script: []string{"start 1 1 7", "sret 1 ok", "close 1", "nres 0 1 100", "nrun 0", "nrun 0", "nwrite 0 ok", "run 1", "run 1"}},
+		{Sc: one("graceful-close-waits", 2, closeG, res0), Script: []string{"start 1 1 7", "sret 1 ok", "close 1", "nres 0 1 100", "nrun 0", "nrun 0", "nrun 0", "nwrite 0 ok", "run 1", "run 1"}},
 		{Sc: one("cancel-sent-drop", 2, cancel), Script: []string{"start 1 1 7", "sret 1 ok", "cancel 1", "run 1", "run 1", "dret 1 ok"}},
 		{Sc: &rpcsim.Scenario{Name: "cancel-not-sent-no-drop", Cfg: rpcsim.Config{MaxRetries: 2, Interval: 3}, Can: true,
 			Calls: []rpcsim.Option{{Kind: "start", ID: 1, Seq: 1, Body: 7}}, Env: []rpcsim.Option{cancel}},
 			Script: []string{"start 1 1 7", "cancel 1", "sret 1 can", "run 1"}},
 		{Sc: one("cancel-and-result", 2, cancel, res0), Repeat: 20, Script: []string{
-			"start 1 1 7", "sret 1 ok", "nres 0 1 100", "nrun 0", "nrun 0", "nwrite 0 ok", "cancel 1", "run 1", "run 1"}},
+			"start 1 1 7", "sret 1 ok", "nres 0 1 100", "nrun 0", "nrun 0", "nrun 0", "nwrite 0 ok", "cancel 1", "run 1", "run 1"}},
 		{Sc: one("cancel-and-fclose", 2, cancel, ack1, fclose), Repeat: 20, Script: []string{
 			"start 1 1 7", "sret 1 ok", "ack 1", "run 1", "cancel 1", "fclose 2", "run 1"}},
 	}
